@@ -97,3 +97,40 @@ def run_c12_type_key(tier, seed):
     except Exception as e:  # noqa
         failures.append(dict(name='C12 dict value with a "type" key is decoded as a marker', case='type-key:{"type":"path","value":"/x"}', error=repr(e)))
     return dict(tool="cpython: __get_objects__ + json + fromParameters", bound="1 value", cases=1, distinct=1, failures=failures)
+
+
+def run_c02_meta_in_default(tier, seed):
+    """C02: the "value equals the declared default" test of HashComputer.update compares configurations with Config.__eq__,
+    which looks at every value (Meta / Option / Path too): editing only a Meta value inside a sub-configuration that otherwise
+    equals the parameter's default makes the parameter enter the signature."""
+    from bounded.zoo_ws import FdLearner, FdOptimizer
+    failures = []
+    unset = FdLearner(epochs=3).__xpm__.identifier.all.hex()
+    explicit = FdLearner(epochs=3, optimizer=FdOptimizer(lr=1e-3)).__xpm__.identifier.all.hex()
+    meta = FdLearner(epochs=3, optimizer=FdOptimizer(lr=1e-3, verbose=True)).__xpm__.identifier.all.hex()
+    if unset != explicit:
+        failures.append(dict(name="C02 explicit default differs from unset", case="default-config:explicit", unset=unset, explicit=explicit))
+    if meta != explicit:
+        failures.append(dict(name="C02 a Meta edit inside a sub-configuration equal to the declared default changes the identifier",
+                             case="default-config:meta-edit", explicit=explicit, with_meta_edit=meta))
+    return dict(tool="cpython: real identifiers", bound="1 class pair, 3 configurations", cases=3, distinct=3, failures=failures)
+
+
+def run_c01_default_generated(tier, seed):
+    """C01: same root cause, seen through sealing: the default value has a generated field, the sealed value holds the generated
+    path, Config.__eq__ then says "not the default" and the identifier changes when the configuration is sealed."""
+    from bounded.zoo_ws import FdIndexer
+    from experimaestro.xpmutils import DirectoryContext
+    failures = []
+    c = FdIndexer(name="wiki")
+    before = c.__xpm__.identifier.all.hex()
+    tmp = Path(tempfile.mkdtemp(prefix="verif-c01-"))
+    try:
+        c.__xpm__.seal(DirectoryContext(tmp))
+        after = c.__xpm__.identifier.all.hex()
+    finally:
+        shutil.rmtree(tmp, ignore_errors=True)
+    if before != after:
+        failures.append(dict(name="C01 identifier changes when a configuration whose defaulted parameter holds a generated field is sealed",
+                             case="default-config:generated-field:seal", before=before, after=after))
+    return dict(tool="cpython: real identifiers before / after seal()", bound="1 configuration", cases=1, distinct=1, failures=failures)
